@@ -1,6 +1,7 @@
 package main
 
 import (
+	"regexp"
 	"go/ast"
 	"go/token"
 	"sort"
@@ -811,6 +812,36 @@ func init() {
 			}
 		}
 		x.defStrList("httpListenersStartedWith", starterArgs)
+		// … and nothing in package main adjusts the header configuration of a proxy after it was loaded / built:
+		// no assignment to <proxy>.Config, <proxy>.Config.<field> or to a header field of <cfg>.Proxy
+		var cfgWrites []string
+		hdrField := regexp.MustCompile(`\.Proxy\.(ClientIPHeader|TLSHeader|TLSHeaderValue|RequestID|STSHeader|LocalIP)(\.|$)`)
+		cfgSel := regexp.MustCompile(`\.Config(\.|$)`)
+		for _, f := range x.files(".") {
+			for _, d := range f.Decls {
+				fd, ok := d.(*ast.FuncDecl)
+				if !ok || fd.Body == nil {
+					continue
+				}
+				ast.Inspect(fd.Body, func(n ast.Node) bool {
+					var lhs []ast.Expr
+					switch v := n.(type) {
+					case *ast.AssignStmt:
+						lhs = v.Lhs
+					case *ast.IncDecStmt:
+						lhs = []ast.Expr{v.X}
+					}
+					for _, l := range lhs {
+						t := x.src(l)
+						if cfgSel.MatchString(t) || hdrField.MatchString(t) {
+							cfgWrites = append(cfgWrites, fd.Name.Name+": "+t)
+						}
+					}
+					return true
+				})
+			}
+		}
+		x.defStrList("headerConfigWritesInMain", cfgWrites)
 
 		// ---- (4) config/load.go: the options bound to the configuration fields the header code reads ------------
 		// fields read: every `<x>.<Field>` / `<x>.STSHeader.<Field>` selector in addHeaders/addResponseHeaders/ServeHTTP
